@@ -254,6 +254,12 @@ def run_check(prop, tier, repo, seed, jobs, t0):
     if jobs_list:
         with mp.Pool(min(jobs, len(jobs_list))) as pool:
             results = pool.map(verify_one, jobs_list, chunksize=1)
+    # ---- solver budget exhausted somewhere: re-verify those functions alone, serially, with a 6x budget, so that a
+    # busy machine cannot turn a proved obligation into an alarm
+    retry = [i for i, r in enumerate(results) if any(o['verdict'] == 'unknown' for o in r['obligations'])]
+    for i in retry:
+        job = jobs_list[i]
+        results[i] = verify_one((job[0], job[1], job[2] * 6, job[3], job[4] + 13))
     # ---- extra analyses registered for this property (frame checker, data-flow, ...)
     extra = []
     for name, fn in cfg.get('extra', []):
